@@ -505,8 +505,22 @@ fn run_op_inner(st: &mut State, op: &Op) -> Obs {
         // ------------------------------------------------------------------ Rust API, Handle
         (false, "reopen") => {
             let h = match op.handle.as_ref().and_then(|k| st.handles.get(k)) { Some(h) => h, None => return harness_err("no such handle".into()) };
-            let hr = pathrs::HandleRef::from_fd(h.as_fd());
-            match hr.reopen(flags) { Ok(f) => ok_fd(st, op, f.into()), Err(e) => err_obs(e) }
+            match op.via.as_deref() {
+                None => { let hr = pathrs::HandleRef::from_fd(h.as_fd()); match hr.reopen(flags) { Ok(f) => ok_fd(st, op, f.into()), Err(e) => err_obs(e) } }
+                // the owned Handle's own method (the descriptor is moved into a Handle and back), or a clone of it
+                Some(via) => {
+                    let key = op.handle.clone().unwrap_or_default();
+                    let fd = st.handles.remove(&key).unwrap();
+                    let hd = pathrs::Handle::from_fd(fd);
+                    let r = match via {
+                        "owned" => hd.reopen(flags),
+                        "clone" => hd.as_ref().try_clone().and_then(|c| c.reopen(flags)),
+                        _ => hd.try_clone().and_then(|c| c.reopen(flags)),
+                    };
+                    st.handles.insert(key, hd.into());
+                    match r { Ok(f) => ok_fd(st, op, f.into()), Err(e) => err_obs(e) }
+                }
+            }
         }
         (_, "reopen_unshared") => {
             // The caller is a thread with its OWN descriptor table (unshare(CLONE_FILES)): the handle sits at number `num` in
